@@ -246,7 +246,7 @@ def run(ctx):
         ctx.ob("C07.frame" + sfx, "f", not over and not log.get("alloc_dtype_from_argument"), "stub-log(object identity)", 0.0,
                "overwrite_* flags only on fresh intermediates, no parameter is written" + pc,
                cex=None if not over else dict(overwritten_parameter=over), native=None if not over else _native_frame(py))
-    _standin(ctx, py)
+    ctx.guard(_standin, ctx, py)
 
 
 # -----------------------------------------------------------------------------------------------
